@@ -16,7 +16,7 @@ from . import common
 
 LEVEL = 'other'
 EXPLANATION = (
-    'Static analysis (inductive invariant by folding one definition over all abstract pre-states). Branch.append is folded from source over every pre-state (set of constants/worlds on the branch, high-water mark) that satisfies the invariant "every constant/world on the branch is below the mark" and every arriving node over a small universe; the post-state must satisfy the invariant again, contain the arriving items, and do so before AFTER_ADD is emitted. Branch.copy is folded to show the copy owns its containers. Who-may-write for the marks and sets, new_constant/new_world returning the marks, CoordsItem.next being the successor in the sort order, and the def-use of every witness in every rule schema (fresh constant/world taken from the target branch) are checked. (R6) which slots are witness slots is decided semantically: a quantifier/modal slot that only instantiates existing items must be sound under that reading. new_constant / new_world / Branch.__init__ / the closed-branch guard are folded; who-may-write is closed under private helpers of the owners. (R7) Node.for_mapping folded over every node shape with falsy values included (world 0, designated False): the class picked carries the Modal / SentenceNode / Designation markers of exactly the keys present, so Branch.append records for a mapping what it records for the node.')
+    'Static analysis (inductive invariant by folding one definition over all abstract pre-states). Branch.append is folded from source over every pre-state (set of constants/worlds on the branch, high-water mark) that satisfies the invariant "every constant/world on the branch is below the mark" and every arriving node over a small universe; the post-state must satisfy the invariant again, contain the arriving items, and do so before AFTER_ADD is emitted. Branch.copy is folded to show the copy owns its containers. Who-may-write for the marks and sets, new_constant/new_world returning the marks, CoordsItem.next being the successor in the sort order, and the def-use of every witness in every rule schema (fresh constant/world taken from the target branch) are checked. (R6) which slots are witness slots is decided semantically: a quantifier/modal slot that only instantiates existing items must be sound under that reading. new_constant / new_world / Branch.__init__ / the closed-branch guard are folded; who-may-write is closed under private helpers of the owners. (R7) Node.for_mapping folded over every node shape with falsy values included (world 0, designated False): the class picked carries the Modal / SentenceNode / Designation markers of exactly the keys present, so Branch.append records for a mapping what it records for the node. (R8) access.Serial._get_targets folded: the successor world offered is branch.new_world() of the target branch in every state.')
 TRUSTED = ['CPython ast', 'sa.minieval', 'sa.schema extractor', 'Python set/max semantics']
 ASSUMPTIONS = ['constants are modelled as integers ordered like (subscript, index) -- justified by the CoordsItem.next/sorting fold',
                'every node reaches a branch through Branch.append (C01.R3 who-may-call)']
